@@ -111,9 +111,17 @@ def gen_case(run_seed: int, index: int, tier: str) -> dict:
             msgs.append([(v >> (k - 1 - j)) & 1 for j in range(k)])
         else:
             msgs.append([rng.randrange(2) for _ in range(k)])
+    same = B >= 2 and not huge and rng.random() < 0.12
+    if same:  # every row carries the same word and the same damage; the receiver hands the rows on as one broadcast row
+        case["shared_rows"] = True
+        msgs = [list(msgs[0]) for _ in range(B)]
     case["messages"] = msgs
-    if rng.random() < 0.2:
-        case["warmup_messages"] = [[[rng.randrange(2) for _ in range(k)] for _ in range(rng.choice([1, 2, 3]))] for _ in range(rng.choice([1, 2]))]
+    if B == 1 and not huge and rng.random() < 0.15:
+        case["one_d"] = True  # a single unbatched word (k,): a layout a component may reject, never answer wrongly
+    if rng.random() < 0.25 and not huge:
+        case["warmup_messages"] = [[[rng.randrange(2) for _ in range(k)] for _ in range(1 if case.get("one_d") else rng.choice([1, 2, 3]))] for _ in range(rng.choice([1, 2, 4]))]
+        if rng.random() < 0.4:  # the very messages of the judged call have been sent before (over the undisturbed channel)
+            case["warmup_messages"].insert(rng.randrange(len(case["warmup_messages"]) + 1), [list(r_) for r_ in msgs])
     if rng.random() < 0.15:  # a similar code (same encoder class, same n and k) was set up earlier in the process
         sib = C.sibling_spec(rng, spec)
         if sib is not None:
@@ -143,6 +151,9 @@ def gen_case(run_seed: int, index: int, tier: str) -> dict:
                 else:
                     p = sorted(rng.sample(range(n), w))
             pats.append([p])
+        if same:
+            keep = next((r for r in range(B) if r not in over), 0)
+            pats, over = [[list(pats[keep][0])] for _ in range(B)], ([] if keep not in over else list(range(B)))
         case["plan"] = {"kind": "flips", "patterns": pats, "t": t, "over_budget_rows": over}
     else:
         words = []
@@ -152,6 +163,8 @@ def gen_case(run_seed: int, index: int, tier: str) -> dict:
                 words.append([(v >> (n - 1 - j)) & 1 for j in range(n)])
             else:
                 words.append([rng.randrange(2) for _ in range(n)])
+        if same:
+            words = [list(words[0]) for _ in range(B)]
         case["plan"] = {"kind": "arbitrary", "words": words}
     return case
 
@@ -184,6 +197,16 @@ def execute(case: dict) -> RunResult:
     msg = torch.tensor(case["messages"], dtype=torch.float32)
     log.add("result", {"out": lr.out if lr.exc is None else f"raised {type(lr.exc).__name__}", "fired": lr.fired})
     res.probes[f"msg_dtype.{case.get('msg_dtype', 'float32')}"] += 1
+    if lr.tap_demod is not None and lr.tap_demod.shared_rows:
+        res.probes["layout.rows_share_memory"] += 1
+        res.faults["receiver.rows_handed_on_as_one_broadcast_row"] += 1
+    if lr.exc is not None and case.get("one_d"):
+        res.probes["layout_rejected.unbatched_word"] += 1
+        res.digest, res.n_events = log.digest(), len(log)
+        return res
+    if case.get("one_d") and isinstance(lr.out, torch.Tensor) and lr.out.dim() == 1:
+        lr.out = lr.out.unsqueeze(0)
+        res.probes["layout.unbatched_word"] += 1
     if lr.exc is not None and case.get("msg_dtype", "float32") != "float32":
         res.probes[f"rejected_dtype.{case['msg_dtype']}"] += 1  # a dtype may be rejected; it may not be answered wrongly
         res.digest, res.n_events = log.digest(), len(log)
